@@ -106,7 +106,7 @@ func TestVerifBoundedBackendsAgree(t *testing.T) {
 	}
 	names := []string{"example.com.", "www.example.com.", "WWW.Example.COM.", "www2.example.com.", "txt.example.com.", "nx.example.com.",
 		"x.wild.example.com.", "y.x.wild.example.com.", "bad!.wild.example.com.", "wild.example.com.", "sub.example.com.", "host.sub.example.com.",
-		"a.b.c.example.com.", "b.c.example.com.", "z.c.example.com.", "sub2.example.com.", "www.sub2.example.com."}
+		"a.b.c.example.com.", "b.c.example.com.", "z.c.example.com.", "c.example.com.", "sub2.example.com.", "www.sub2.example.com."}
 	types := []uint16{dns.TypeA, dns.TypeAAAA, dns.TypeNS, dns.TypeSOA, dns.TypeTXT, dns.TypeCNAME}
 	clients := []string{"1.2.3.4", "10.1.0.1", "10.2.0.1", "10.3.0.1"}
 	root := t.TempDir()
